@@ -1,6 +1,7 @@
 package main
 
 import (
+	"os"
 	"fmt"
 	"go/ast"
 	"go/token"
@@ -88,6 +89,101 @@ func protoCallsOf(body ast.Node, proto string) []protoCall {
 	return out
 }
 
+// singleAssignLocals maps the local variables of fd that are initialised where they are declared and
+// never assigned again (nor have their address taken) to their initialiser. The inlined view binds a
+// helper's parameters to such locals (`var name string = "name"`); the table rules below read through
+// them.
+func singleAssignLocals(info *types.Info, fd *ast.FuncDecl) map[types.Object]ast.Expr {
+	init := map[types.Object]ast.Expr{}
+	dirty := map[types.Object]bool{}
+	if info == nil || fd.Body == nil {
+		return init
+	}
+	ast.Inspect(fd.Body, func(n ast.Node) bool {
+		switch x := n.(type) {
+		case *ast.DeclStmt:
+			if gd, ok := x.Decl.(*ast.GenDecl); ok && gd.Tok == token.VAR {
+				for _, sp := range gd.Specs {
+					if vs, ok := sp.(*ast.ValueSpec); ok && len(vs.Names) == len(vs.Values) {
+						for i, nm := range vs.Names {
+							if o := info.Defs[nm]; o != nil {
+								init[o] = vs.Values[i]
+							}
+						}
+					}
+				}
+			}
+		case *ast.AssignStmt:
+			if x.Tok == token.DEFINE && len(x.Lhs) == len(x.Rhs) {
+				for i, l := range x.Lhs {
+					if id, ok := l.(*ast.Ident); ok {
+						if o := info.Defs[id]; o != nil {
+							init[o] = x.Rhs[i]
+						} else if o := info.Uses[id]; o != nil {
+							dirty[o] = true
+						}
+					}
+				}
+			} else {
+				for _, l := range x.Lhs {
+					if id, ok := l.(*ast.Ident); ok {
+						if o := info.ObjectOf(id); o != nil {
+							dirty[o] = true
+						}
+					}
+				}
+			}
+		case *ast.IncDecStmt:
+			if id, ok := x.X.(*ast.Ident); ok {
+				if o := info.ObjectOf(id); o != nil {
+					dirty[o] = true
+				}
+			}
+		case *ast.UnaryExpr:
+			if id, ok := x.X.(*ast.Ident); ok && x.Op == token.AND {
+				if o := info.ObjectOf(id); o != nil {
+					dirty[o] = true
+				}
+			}
+		case *ast.RangeStmt:
+			for _, e := range []ast.Expr{x.Key, x.Value} {
+				if id, ok := e.(*ast.Ident); ok && e != nil {
+					if o := info.ObjectOf(id); o != nil {
+						dirty[o] = true
+					}
+				}
+			}
+		}
+		return true
+	})
+	for o := range dirty {
+		delete(init, o)
+	}
+	return init
+}
+
+// resolveLocal follows single-assignment locals (and parentheses / string(...) conversions of them).
+func resolveLocal(info *types.Info, locals map[types.Object]ast.Expr, e ast.Expr) ast.Expr {
+	for i := 0; i < 6 && e != nil; i++ {
+		switch x := e.(type) {
+		case *ast.ParenExpr:
+			e = x.X
+			continue
+		case *ast.Ident:
+			if info != nil {
+				if o := info.ObjectOf(x); o != nil {
+					if in, ok := locals[o]; ok {
+						e = in
+						continue
+					}
+				}
+			}
+		}
+		break
+	}
+	return e
+}
+
 func (c *Ctx) checkThriftStruct(rule, short, typ string) {
 	pk := c.pkg(short)
 	nt := c.named(short, typ)
@@ -160,14 +256,44 @@ func (c *Ctx) checkThriftStruct(rule, short, typ string) {
 		n, _ := strconv.Atoi(m[2])
 		recv, proto := recvName(fd), protoName(fd)
 		calls := protoCallsOf(fd.Body, proto)
+		locals := singleAssignLocals(pk.TypesInfo, fd)
+		res := func(e ast.Expr) ast.Expr { return resolveLocal(pk.TypesInfo, locals, e) }
+		// the receiver's field named by e, reading through single-assignment locals
+		recvFieldOf := func(e ast.Node, recv string) string {
+			if f := recvFieldOf(e, recv); f != "" {
+				return f
+			}
+			out := ""
+			ast.Inspect(e, func(nd ast.Node) bool {
+				if id, ok := nd.(*ast.Ident); ok && out == "" {
+					if r := res(id); r != ast.Expr(id) {
+						out = recvFieldOf(r, recv)
+					}
+				}
+				return out == ""
+			})
+			return out
+		}
 		if m[1] == "write" {
 			row := thriftRow{id: -1, pos: fd.Pos()}
 			// conditional: whole body under if <recv>.IsSetX()
 			if len(fd.Body.List) >= 1 {
 				if ifs, isIf := fd.Body.List[0].(*ast.IfStmt); isIf && ifs.Init == nil {
-					if call, isCall := ifs.Cond.(*ast.CallExpr); isCall {
+					cond := ifs.Cond
+					early := false
+					if un, isUn := cond.(*ast.UnaryExpr); isUn && un.Op == token.NOT {
+						// `if !p.IsSetX() { return nil }` in front of the field
+						if len(ifs.Body.List) == 1 {
+							if _, isRet := ifs.Body.List[0].(*ast.ReturnStmt); isRet && ifs.Else == nil {
+								cond, early = un.X, true
+							}
+						}
+					}
+					if call, isCall := cond.(*ast.CallExpr); isCall {
 						if se, isSel := call.Fun.(*ast.SelectorExpr); isSel && strings.HasPrefix(se.Sel.Name, "IsSet") {
-							row.cond = true
+							if _, isNot := ifs.Cond.(*ast.UnaryExpr); !isNot || early {
+								row.cond = true
+							}
 						}
 					}
 				}
@@ -185,11 +311,11 @@ func (c *Ctx) checkThriftStruct(rule, short, typ string) {
 				fail(fd.Pos(), ":"+name, "WriteFieldBegin arity")
 				continue
 			}
-			if lit, isLit := fb.Args[0].(*ast.BasicLit); isLit {
+			if lit, isLit := res(fb.Args[0]).(*ast.BasicLit); isLit {
 				row.wire, _ = strconv.Unquote(lit.Value)
 			}
-			row.ttype = ttypeName(fb.Args[1])
-			if lit, isLit := fb.Args[2].(*ast.BasicLit); isLit {
+			row.ttype = ttypeName(res(fb.Args[1]))
+			if lit, isLit := res(fb.Args[2]).(*ast.BasicLit); isLit {
 				row.id, _ = strconv.Atoi(lit.Value)
 			}
 			val := calls[1]
@@ -205,7 +331,7 @@ func (c *Ctx) checkThriftStruct(rule, short, typ string) {
 				if len(val.call.Args) == 2 {
 					row.goField = recvFieldOf(val.call.Args[1], recv)
 					// length must be len(p.F)
-					if lc, isCall := val.call.Args[1].(*ast.CallExpr); !isCall || types.ExprString(lc.Fun) != "len" {
+					if lc, isCall := res(val.call.Args[1]).(*ast.CallExpr); !isCall || types.ExprString(lc.Fun) != "len" {
 						fail(val.call.Pos(), ":"+name, "the list header does not carry len(p."+row.goField+")")
 					}
 					// elements: a range over p.F with elem.Write, then WriteListEnd
@@ -346,6 +472,7 @@ func (c *Ctx) checkThriftStruct(rule, short, typ string) {
 	issetChecked := map[string]bool{}
 	if rd := decls["Read"]; rd != nil {
 		recv := recvName(rd)
+		rdLocals := singleAssignLocals(pk.TypesInfo, rd)
 		ast.Inspect(rd.Body, func(nd ast.Node) bool {
 			cc, isCC := nd.(*ast.CaseClause)
 			if isCC && len(cc.List) == 1 {
@@ -367,7 +494,7 @@ func (c *Ctx) checkThriftStruct(rule, short, typ string) {
 			}
 			if ifs, isIf := nd.(*ast.IfStmt); isIf {
 				if un, isUn := ifs.Cond.(*ast.UnaryExpr); isUn && un.Op == token.NOT {
-					if id, isId := un.X.(*ast.Ident); isId && strings.HasPrefix(id.Name, "isset") && len(ifs.Body.List) == 1 {
+					if id, isId := resolveLocal(pk.TypesInfo, rdLocals, un.X).(*ast.Ident); isId && strings.HasPrefix(id.Name, "isset") && len(ifs.Body.List) == 1 {
 						if _, isRet := ifs.Body.List[0].(*ast.ReturnStmt); isRet {
 							issetChecked[strings.TrimPrefix(id.Name, "isset")] = true
 						}
@@ -454,6 +581,9 @@ func (c *Ctx) checkThriftStruct(rule, short, typ string) {
 		}
 		if d.required && w.cond {
 			fail(w.pos, k, fmt.Sprintf("required field %d (%s) is written conditionally", id, d.goField))
+		}
+		if d.required && !issetChecked[d.goField] && c.requiredCheckedSSA(short, typ, id) {
+			issetChecked[d.goField] = true // decided on SSA: any shape of the presence test
 		}
 		if d.required && !issetChecked[d.goField] {
 			fail(r.pos, k, fmt.Sprintf("required field %d (%s) is not checked after reading", id, d.goField))
@@ -826,6 +956,150 @@ func (c *Ctx) listWriterLoopSSA(short, typ, name, field string) bool {
 			}
 		}
 		return true
+	}
+	return false
+}
+
+// requiredCheckedSSA: in <typ>.Read the presence of required field id is tested after the field loop,
+// whatever the shape of the test (helper, inverted branches): there is a branch on the field's presence
+// flag - the boolean that becomes true only behind the call of readField<id> - such that every return
+// reachable through its "not set" edge returns a non-nil error on that path, and every return that
+// returns a nil error lies behind its "set" edge.
+func (c *Ctx) requiredCheckedSSA(short, typ string, id int) bool {
+	rd := c.fn(short, typ, "Read")
+	rf := c.fn(short, typ, fmt.Sprintf("readField%d", id))
+	if rd == nil || rf == nil {
+		rf = c.fn(short, typ, fmt.Sprintf("ReadField%d", id))
+		if rd == nil || rf == nil {
+			return false
+		}
+	}
+	var callBlocks []*ssa.BasicBlock
+	instrsOf(rd, func(in ssa.Instruction) {
+		if call, ok := in.(*ssa.Call); ok && staticCallee(call) == rf {
+			callBlocks = append(callBlocks, call.Block())
+		}
+	})
+	if len(callBlocks) != 1 {
+		return false
+	}
+	cb := callBlocks[0]
+	// the presence flag: bool phis fed `true` from behind the call, closed under phi edges
+	flags := map[ssa.Value]bool{}
+	for _, b := range rd.Blocks {
+		for _, in := range b.Instrs {
+			phi, ok := in.(*ssa.Phi)
+			if !ok {
+				break
+			}
+			if bt, isB := phi.Type().Underlying().(*types.Basic); !isB || bt.Kind() != types.Bool {
+				continue
+			}
+			for i, e := range phi.Edges {
+				if k, isK := constBool(e); isK && k {
+					pred := b.Preds[i]
+					if pred == cb || cb.Dominates(pred) {
+						flags[phi] = true
+					}
+				}
+			}
+		}
+	}
+	if len(flags) == 0 {
+		return false
+	}
+	for changed := true; changed; {
+		changed = false
+		for _, b := range rd.Blocks {
+			for _, in := range b.Instrs {
+				phi, ok := in.(*ssa.Phi)
+				if !ok {
+					break
+				}
+				if flags[phi] {
+					continue
+				}
+				for _, e := range phi.Edges {
+					if flags[e] {
+						// only a flag of THIS field may flow in besides constants and itself
+						pure := true
+						for _, e2 := range phi.Edges {
+							if _, isK := e2.(*ssa.Const); !isK && !flags[e2] && e2 != ssa.Value(phi) {
+								pure = false
+							}
+						}
+						if pure {
+							flags[phi] = true
+							changed = true
+						}
+						break
+					}
+				}
+			}
+		}
+	}
+	for _, b := range rd.Blocks {
+		iff, ok := condOf(b)
+		if !ok {
+			continue
+		}
+		v := iff.Cond
+		neg := false
+		for {
+			if u, isU := v.(*ssa.UnOp); isU && u.Op == token.NOT {
+				neg = !neg
+				v = u.X
+				continue
+			}
+			break
+		}
+		if !flags[v] {
+			continue
+		}
+		setIdx := 0
+		if neg {
+			setIdx = 1
+		}
+		// (a) not set -> every reachable return carries an error on that path
+		okA := true
+		rets := returnsFromEdge(b, 1-setIdx)
+		if len(rets) == 0 {
+			okA = false
+		}
+		for _, ra := range rets {
+			res := ra.ret.Results
+			if len(res) == 0 {
+				okA = false
+				continue
+			}
+			if isNilConst(ra.st.resolve(res[len(res)-1])) {
+				okA = false
+			}
+		}
+		if os.Getenv("VERIF_DEBUG_REQ") != "" {
+			fmt.Fprintf(os.Stderr, "req %s.%s field %d: if at block %d setIdx %d okA %v rets %d\n", short, typ, id, b.Index, setIdx, okA, len(rets))
+			for _, ra := range rets {
+				fmt.Fprintf(os.Stderr, "   ret block %d -> %v\n", ra.ret.Block().Index, ra.st.resolve(ra.ret.Results[len(ra.ret.Results)-1]))
+			}
+		}
+		if !okA {
+			continue
+		}
+		// (b) success is only reachable behind the "set" edge
+		okB := true
+		for _, r := range returnsOf(rd) {
+			if len(r.Results) == 0 {
+				continue
+			}
+			for _, va := range resultValues(r, len(r.Results)-1) {
+				if isNilConst(va.Val) && !edgeDominates(b, setIdx, va.At.Block()) {
+					okB = false
+				}
+			}
+		}
+		if okB {
+			return true
+		}
 	}
 	return false
 }
